@@ -780,7 +780,10 @@ def unit_sentinels(timeout_ms=10000):
         eng.oblige("Zero.adjoint-returns-self", z3.BoolVal(r is me), detail="zero.adjoint() is zero (so Dagger(zero) is zero)")
         r = run("__sub__", x)
         eng.oblige("Zero.__sub__-returns-neg-other", z3.BoolVal(isinstance(r, _Opaque) and r.label == "neg(x)"), detail="zero - x is -x")
-        extra = sorted(set(list(methods) + list(aliases)) - {"__add__", "__mul__", "__neg__", "adjoint", "__sub__", "__repr__"})
+        if "__rmul__" in methods or "__rmul__" in aliases:
+            r = run("__rmul__", x)
+            eng.oblige("Zero.__rmul__-returns-self", z3.BoolVal(r is me), detail="x * zero is zero (an integer literal on the left of a series in the mini-language)")
+        extra = sorted(set(list(methods) + list(aliases)) - {"__add__", "__mul__", "__rmul__", "__neg__", "adjoint", "__sub__", "__repr__"})
         eng.oblige("Zero-defines-no-other-arithmetic", z3.BoolVal(not extra), detail=f"unexpected members: {extra} (x + zero, zero / k, zero @ x stay TypeErrors as modelled)")
         one_members = sorted(st.name for st in one_cls.body if isinstance(st, ast.FunctionDef) and st.name != "__repr__")
         eng.oblige("One-defines-no-arithmetic", z3.BoolVal(not one_members), detail=f"members: {one_members}")
